@@ -35,6 +35,7 @@ type memConn struct {
 	out  bytes.Buffer
 	closed,
 	readerParked bool
+	stalled      bool
 	reads int // number of Read calls that returned data
 }
 
@@ -85,9 +86,21 @@ func (c *memConn) Supply(seg []byte) {
 	c.mu.Unlock()
 }
 
+// Stall makes every later Write block until the connection is closed: a peer that has stopped reading with full buffers.
+func (c *memConn) Stall() { c.mu.Lock(); c.stalled = true; c.mu.Unlock() }
+
 func (c *memConn) Write(b []byte) (int, error) {
 	c.mu.Lock()
 	defer c.mu.Unlock()
+	if c.stalled && !c.closed {
+		// the writer (a goroutine of the code under test) blocks here for good: it does not count as running
+		tok := verifrt.CurrentTok()
+		verifrt.Park(tok)
+		for !c.closed {
+			c.cond.Wait()
+		}
+		verifrt.Unpark(tok)
+	}
 	if c.closed {
 		return 0, io.ErrClosedPipe
 	}
